@@ -69,3 +69,17 @@ META["C02"] = dict(
     text=("Generated scenes and fill/blt requests are rendered by one worker process per implementation subset (8 quick, all 32 in "
           "one job and thorough) and compared bit for bit; the trace hook measures how many cases really reached different code."),
     note="Trusted: the harness's digest/masking rule; PIXMAN_VERIF trace hook (add-only). Found and fixed: S9.")
+META["C03"] = dict(
+    technique="property-based testing (rapidcheck): generated clipped requests vs. an independent region model; bit-level diff of all storage outside the model region",
+    design_ref="§4 C03",
+    text=("Generated requests with multi-box clips on destination/source/mask, alpha maps and sub-byte formats; the region the "
+          "statement defines is computed by the independent model and every bit outside it must be unchanged; "
+          "pixman_compute_composite_region must return exactly that region."),
+    note="Trusted: harness/ref_region.hpp. ASan variant re-runs part of the cases.")
+META["C19"] = dict(
+    technique="property-based testing (rapidcheck): fill/blt vs. independently computed memory image across worker processes per implementation chain; fill_boxes vs. per-box compositing (differential) + locality",
+    design_ref="§4 C19",
+    text=("Generated fill/blt requests executed under every implementation subset and compared with an independently computed "
+          "memory image; generated fill_boxes/fill_rectangles requests compared with per-box compositing and checked for locality, "
+          "also under ASan."),
+    note="Trusted: harness raw pixel writer; composite32 as reference for fill_boxes. Found and fixed: S3.")
